@@ -6,6 +6,16 @@ import z3
 
 from sx import core as S, env as E, npshim, ffi, cfg, pl, plh, families as F, poly
 
+
+def _clear_caches(ns_):
+    """empty the configurator-level caches if the current tree has any (lru_cache on the class, pinned tree); a no-op for per-instance caches"""
+    for name in ("ge_polyhedron", "leafs"):
+        f = ns_.cc.StingyConfigurator.__dict__.get(name)
+        f = getattr(f, "fget", f)
+        cc_ = getattr(f, "cache_clear", None)
+        if cc_ is not None:
+            cc_()
+
 PROPERTY = "C15"
 REGIONS = ["solve", "solve-include-virtual", "solve-none", "select", "select-none", "select-raises", "cfgselect-only-leafs", "exact-solver",
            "generated-id-column", "foreign-id-in-objective", "two-objectives"]
@@ -19,7 +29,7 @@ ASSUMPTIONS = ["M1", "M4", "M7", "M8", "M10", "for select() the expected objecti
 
 
 def functions(ns):
-    return [ns.pg.AtLeast.solve, ns.pnd.ge_polyhedron_config.select, ns.cc.StingyConfigurator.select, ns.cc.StingyConfigurator.leafs.__wrapped__,
+    return [ns.pg.AtLeast.solve, ns.pnd.ge_polyhedron_config.select, ns.cc.StingyConfigurator.select, ns.cc.StingyConfigurator.leafs,
             ns.pnd.variable_ndarray.construct, ns.pnd.ge_polyhedron_config._vectors_from_prios, ns.pg.AtLeast.to_ge_polyhedron]
 
 
@@ -60,8 +70,8 @@ def run_inst(spec, run):
     mu = spec.get("mutant")
     part = spec["part"]
     model_spec = spec["model"]
-    ns.cc.StingyConfigurator.ge_polyhedron.fget.cache_clear()
-    ns.cc.StingyConfigurator.leafs.cache_clear()
+    _clear_caches(ns)
+    _clear_caches(ns)
     try:
         m0 = pl.build(ns, model_spec, {})
     except Exception as e:    # noqa
@@ -84,8 +94,8 @@ def run_inst(spec, run):
     stub = ffi.install(ns.pnd)
     try:
         def fn(ctx):
-            ns.cc.StingyConfigurator.ge_polyhedron.fget.cache_clear()
-            ns.cc.StingyConfigurator.leafs.cache_clear()
+            _clear_caches(ns)
+            _clear_caches(ns)
             m1 = pl.build(ns, model_spec, {})
             got = {}
             sols = []
